@@ -199,7 +199,7 @@ Proof. exact budget_zero_dispatches_nothing. Qed.
 Print Assumptions C04_budget_zero_dispatches_nothing.
 
 (* ------------------------------------------------------------------ the VM, second part (C04VmProofs2-7.v) *)
-From Cao Require Import C04VmProofs2 C04VmProofs3 C04VmProofs4 C04VmProofs5 C04VmProofs6 C04VmProofs7 C04VmWitness.
+From Cao Require Import C04VmProofs2 C04VmProofs3 C04VmProofs4 C04VmProofs5 C04VmProofs6 C04VmProofs6b C04VmProofs7 C04VmWitness.
 
 (* == (and with it table key lookup) is total on the live values of a closed heap whose tables are ranked
    ([heap_acyclic]: a rank function on table addresses, strictly decreasing from a table to the tables it
@@ -233,7 +233,7 @@ Print Assumptions C04_step_no_abort_no_native.
 (* The natives.  [ninv] = the structural invariant vm_inv + acyclic heap + no native function VALUE in the heap
    names a native that calls back.  Every native of the menu and __to_array return a value or an error and
    keep ninv; call1 / try1 / call0 / rb1 do so when the nested run does ([reenter_ok]).
-   NOT covered: the stdlib natives __min, __max, __sort ([covered_native]). *)
+   The stdlib natives __min, __max, __sort are not [covered_native]: they are in C04_native_call_ok0. *)
 Theorem C04_native_call_ok : forall F P reenter start,
   code_ok P start -> reenter_ok P reenter start -> (0 < code_len P)%N ->
   forall h s, ninv P start s ->
@@ -242,16 +242,26 @@ Theorem C04_native_call_ok : forall F P reenter start,
 Proof. exact call_native_ok. Qed.
 Print Assumptions C04_native_call_ok.
 
-(* run_no_abort, one step, ALL 47 opcodes (natives except __min / __max / __sort), under [step_pre3] =
+(* EVERY native (also __min, __max, __sort): no abort, and the state left satisfies vm_inv again (for these three
+   the heap is not shown to stay acyclic: the row / table they build holds values whose rank after the callbacks
+   is not known) *)
+Theorem C04_native_call_ok0 : forall F P reenter start,
+  code_ok P start -> reenter_ok P reenter start -> (0 < code_len P)%N ->
+  forall h s, ninv P start s -> nres_ok0 P start s (call_native F P reenter h s).
+Proof. exact call_native_ok0. Qed.
+Print Assumptions C04_native_call_ok0.
+
+(* run_no_abort, one step, ALL 47 opcodes and every native, under [step_pre3] =
    the structural invariant [vm_inv] (which implies the structural part of step_pre2), the instruction pointer at
-   an instruction start of a well-formed code ([code_ok]: the VM's reading of C10), and [side]. *)
-Theorem C04_step_no_abort_partial2 :
+   an instruction start of a well-formed code ([code_ok]: the VM's reading of C10, C04_wellformed_code_ok), and
+   [side]; nested runs (natives that call back) keep their contract [reenter_ok]. *)
+Theorem C04_step_no_abort :
   forall F bld P reenter start,
     code_ok P start -> reenter_ok P reenter start ->
     forall ip0 s, step_pre3 F bld P start ip0 s ->
     forall a s', step F bld P reenter ip0 s <> SStop a s'.
 Proof. exact step_no_abort_all. Qed.
-Print Assumptions C04_step_no_abort_partial2.
+Print Assumptions C04_step_no_abort.
 
 (* preservation: the state of every non-abort result satisfies vm_inv0 again and no object died; after SNext the
    call stack is not empty and the next instruction pointer is an instruction start.  (heap_acyclic is part of
